@@ -477,6 +477,105 @@ def small_capa_cases(tier):
                            "X": [[v] for v in x], "c_scale": cs, "p_scale": ps}
 
 
+# ------------------------------------------------------------------ long series
+
+
+def long_cells(tier):
+    """Series of 1000..8000 samples (thorough: up to 40000) with many collective and point anomalies and a bounded
+    max_segment_length (so that the un-pruned recursion stays O(n * max_segment_length)). Data are a deterministic
+    function of the cell (numpy PCG64 seeded with the stored seed)."""
+    cells = [("CAPA", 1000, 1, "L2Saving", 2, 60, 1.0, None), ("MVCAPA", 1500, 3, "L2Saving", 3, 40, 1.0, "combined"),
+             ("CAPA", 4000, 2, "Saving(GaussianVarCost((0,1)))", 5, 100, 1.0, None), ("MVCAPA", 2500, 5, "Saving(L2Cost(0))", 2, 30, 0.5, "sparse"),
+             ("CAPA", 8000, 1, "L2Saving", 2, 200, 2.0, None), ("MVCAPA", 3000, 2, "L2Saving", 4, 80, 1.0, "intermediate")]
+    if tier != "quick":
+        cells += [("CAPA", 40000, 1, "L2Saving", 2, 100, 1.0, None), ("MVCAPA", 12000, 4, "L2Saving", 3, 60, 1.0, "combined"),
+                  ("CAPA", 20000, 3, "Saving(GaussianVarCost((0,1)))", 10, 300, 1.0, None), ("MVCAPA", 16500, 4, "Saving(L2Cost(0))", 2, 50, 2.0, "sparse"),
+                  ("CAPA", 66000, 1, "L2Saving", 5, 40, 0.5, None), ("MVCAPA", 9000, 8, "L2Saving", 2, 25, 1.0, "dense")]
+    for i, (det, n, p, coll, msl, maxl, scale, pen) in enumerate(cells):
+        yield {"detector": det, "n": n, "p": p, "coll": coll, "msl": msl, "maxl": maxl, "c_scale": scale, "p_scale": scale,
+               "c_pen": pen, "p_pen": pen, "seed": 3000 + i}
+
+
+def _penalised(S, alpha, betas):
+    """Row-wise best over non-empty column sets of (sum of savings - alpha - betas of the set size)."""
+    sv = -np.sort(-S, axis=1)
+    b = np.broadcast_to(np.asarray(betas, dtype=float), (S.shape[1],)) if np.ndim(betas) else np.full(S.shape[1], float(betas))
+    return (np.cumsum(sv - b[None, :], axis=1) - alpha).max(axis=1)
+
+
+def check_long(case):
+    from skchange.anomaly_detectors import CAPA, MVCAPA
+    from skchange.anomaly_detectors import mvcapa as M
+    from skchange.anomaly_scores import to_saving
+
+    n, p, msl, maxl = case["n"], case["p"], case["msl"], case["maxl"]
+    rng = np.random.Generator(np.random.PCG64(case["seed"]))
+    X = rng.normal(size=(n, p))
+    t = int(rng.integers(5, 60))
+    while t < n - 2:
+        kind = rng.integers(0, 4)
+        cols = rng.random(p) < 0.6
+        cols[int(rng.integers(0, p))] = True
+        if kind == 0:
+            X[t, cols] += float(rng.choice([6.0, -8.0, 12.0]))
+            t += int(rng.integers(1, 40))
+        else:
+            L = int(rng.integers(msl, max(msl + 1, min(maxl, 60))))
+            X[t:t + L, cols] += float(rng.choice([1.5, -2.0, 3.0, 0.8]))
+            t += L + int(rng.integers(0, 80))
+    cs, ps = make_saving(case["coll"], p), make_saving("L2Saving", p)
+    with sut(f"{case['detector']}.fit/predict (long series)"):
+        if case["detector"] == "CAPA":
+            det = CAPA(cs, ps, case["c_scale"], case["p_scale"], msl, maxl).fit(X)
+        else:
+            det = MVCAPA(cs, ps, case["c_pen"], case["c_scale"], case["p_pen"], case["p_scale"], msl, maxl).fit(X)
+        y = det.predict(X)
+        scores = det.transform_scores(X).to_numpy().reshape(-1)
+    fresh_c = to_saving(make_saving(case["coll"], p)).fit(X)
+    fresh_p = to_saving(make_saving("L2Saving", p)).fit(X)
+    if case["detector"] == "CAPA":
+        ca, cb, pa, pb = float(det.collective_penalty_), np.zeros(p), float(det.point_penalty_), np.zeros(p)
+    else:
+        fam = {"dense": M.dense_mvcapa_penalty, "sparse": M.sparse_mvcapa_penalty,
+               "intermediate": M.intermediate_mvcapa_penalty, "combined": M.combined_mvcapa_penalty}
+        ca, cb = fam[case["c_pen"]](n, p, fresh_c.get_param_size(1), case["c_scale"])
+        pa, pb = fam[case["p_pen"]](n, p, fresh_p.get_param_size(1), case["p_scale"])
+        ca, cb, pa, pb = float(ca), np.asarray(cb, dtype=float), float(pa), np.asarray(pb, dtype=float)
+    Pt = _penalised(np.asarray(fresh_p.evaluate(np.column_stack((np.arange(n), np.arange(1, n + 1))))), pa, pb)
+    F = np.zeros(n + 1)
+    big = float(np.abs(Pt).max())
+    for e in range(1, n + 1):
+        best = max(F[e - 1], F[e - 1] + Pt[e - 1])
+        starts = np.arange(max(0, e - maxl), e - msl + 1)
+        if starts.size:
+            S = np.asarray(fresh_c.evaluate(np.column_stack((starts, np.full(starts.size, e)))))
+            v = F[starts] + _penalised(S, ca, cb)
+            best = max(best, float(v.max()))
+        F[e] = best
+    events, closed = events_from_predict(y)
+    tol = 64 * (n + 1) * np.finfo(float).eps * (1.0 + float(F[-1]) + big + ca + pa)
+    if len(scores) != n:
+        raise Violation("scores do not have one entry per sample", got=len(scores), n=n)
+    bad = np.flatnonzero(np.abs(scores - F[1:]) > tol)
+    if bad.size:
+        e = int(bad[0]) + 1
+        raise Violation("cumulative score differs from the optimal total penalised saving of the prefix", prefix_length=e,
+                        reported=float(scores[e - 1]), optimum=float(F[e]), n_prefixes_off=int(bad.size))
+    total, prev = 0.0, 0
+    for a, b in events:
+        if not (prev <= a < b <= n) or (b - a > 1 and not msl <= b - a <= maxl):
+            raise Violation("reported anomalies overlap, are unsorted, outside the data or of inadmissible length", anomaly=[a, b])
+        prev = b
+        if b - a == 1:
+            total += float(Pt[a])
+        else:
+            total += float(_penalised(np.asarray(fresh_c.evaluate(np.array([[a, b]]))), ca, cb)[0])
+    if abs(total - scores[-1]) > tol:
+        raise Violation("re-evaluating the reported anomalies does not give the final score", reevaluated=total,
+                        final_score=float(scores[-1]), n_events=len(events))
+    return {"nontrivial": len(events) >= 3, "classes": [f"detector={case['detector']}", f"n>={n // 1000}000", f"events>={min(len(events) // 10 * 10, 100)}"]}
+
+
 FACETS = [
     Facet(
         name="exhaustive_small_capa", kind="enumerate", enumerate=small_capa_cases, check=check_builtin, exhaustive=True,
@@ -513,5 +612,12 @@ FACETS = [
               "other columns' savings still just below their penalty); same exhaustive reference optimum; "
               "non-trivial = >=1 anomaly and savings sub-additive"),
         n_quick=240, n_thorough=4000, shards_quick=8, shards_thorough=16,
+    ),
+    Facet(
+        name="long_series", kind="enumerate", enumerate=long_cells, check=check_long, exhaustive=True, time_limit=900,
+        rule=("CAPA / MVCAPA on series of 1000..8000 samples (thorough: up to 66000; p 1..8) with seeded noise, point anomalies and collective "
+              "anomalies on column subsets, bounded max_segment_length (25..300): every prefix score compared with the un-pruned recursion over "
+              "the same saving values at 64 (n+1) eps relative, reported anomalies re-evaluated; 6 cells (thorough: 12), non-trivial = >= 3 anomalies"),
+        shards_quick=6, shards_thorough=12, max_samples=1,
     ),
 ]
